@@ -76,4 +76,31 @@ var checks = map[string]*check{
 			{Name: "triples", Kind: "explore", Scen: "grpcmux_seq", Inst: inst("none", "triples"), Depths: depths([]int{0}, []int{1}), Budget: budget(time.Minute, 10*time.Minute)},
 		},
 	},
+	"C01": {
+		Title: "Handshake line accepted only when well-formed; never crashes the host",
+		Level: "exploration",
+		Rule: "every handshake line with at most k (2 quick / 3 thorough) of its 8 coordinates (core version, app version, network, address, protocol, certificate, mux flag, framing shape) off-canonical, around three canonical lines, " +
+			"crossed with 72 client configurations (allowed protocols x plugin sets x TLS none/static/AutoMTLS x mux), each run through the real Client.Start with a scripted runner under virtual time and compared with a reference grammar; " +
+			"non-trivial = differs from the canonical line",
+		Assumptions: []string{
+			"reference grammar is one-directional (Start may succeed only if the reference accepts), as the property states",
+			"host names that need DNS are outside the alphabet (no resolver in the sandbox)",
+			"the plugin process is a scripted runner.Runner (RunnerFunc); the Cmd launch path is covered by the E3 parts of C05/C14",
+		},
+		Parts: []part{
+			{Name: "lines", Kind: "explore", Scen: "start_line", BatchN: 400, Depths: depths([]int{0}, []int{0}), Budget: budget(5*time.Minute, 40*time.Minute)},
+		},
+	},
+	"C05": {
+		Title: "A failed start never leaves a plugin process behind",
+		Level: "fault_enumeration",
+		Rule: "every failing start cause of the C01 line/shape alphabet (each field invalid in turn, silence until timeout, partial line, exit before output, EOF without newline, oversize line) x 72 client configurations through the real Client.Start with a scripted runner: " +
+			"on error the runner was killed by the time Start returned, a later Kill returns within 3 s virtual and removes the plugin-dir* directory; non-trivial = the case fails to start",
+		Assumptions: []string{
+			"custom-runner launch (RunnerFunc); pid-level liveness for Cmd launches is covered by the E3 part",
+		},
+		Parts: []part{
+			{Name: "failing-starts", Kind: "explore", Scen: "start_line", Inst: inst("fail-quick", "fail-thorough"), BatchN: 400, Depths: depths([]int{0}, []int{0}), Budget: budget(5*time.Minute, 40*time.Minute)},
+		},
+	},
 }
